@@ -471,6 +471,32 @@ func (f *Frame) loopInvariants(li *loopInfo, spec *LoopSpec, phis []*ssa.Phi) []
 			}})
 		}
 	}
+	// auto: in a function with the frame clause "fresh-arrays", backing arrays
+	// that existed at function entry are unchanged at every loop head
+	if f.block != nil && f.block.Flags["fresh-arrays"] && f.parent == nil && f.entry != nil {
+		out = append(out, invariant{name: "autoframe", text: "auto: arrays existing at entry unchanged (fresh-arrays)", eval: func(f *Frame, st *State, phis []*ssa.Phi, next map[*ssa.Phi][]Term) Term {
+			c := f.ctx
+			var keys []string
+			for key := range st.Heap {
+				if strings.HasPrefix(key, "A|") {
+					keys = append(keys, key)
+				}
+			}
+			sort.Strings(keys)
+			var cs []Term
+			for _, key := range keys {
+				fin := st.Heap[key]
+				ent := c.heapGet(f.entry, key, fin.Sort)
+				if ent.S == fin.S {
+					continue
+				}
+				c.n++
+				q := Term{fmt.Sprintf("fr!%d", c.n), SInt}
+				cs = append(cs, Forall([]Term{q}, Implies(Lt(q, f.entry.Alloc), Eq(Select(fin, q), Select(ent, q))), []Term{Select(fin, q)}))
+			}
+			return And(cs...)
+		}})
+	}
 	// auto: range-index loops (idx = phi[-1, idx+1]; next := idx+1; if next < N): idx < N
 	for pi, p := range phis {
 		if p.Comment != "rangeindex" {
@@ -597,11 +623,46 @@ func (f *Frame) evalLoopClause(cl *Clause, st *State, phis []*ssa.Phi, next map[
 	sig := cl.Fn.Signature
 	want := sig.Params().Len() - nparams - len(spec.Locals)
 	vi := 0
+	// bind by name when every declared loop variable names a distinct
+	// loop-carried variable of the header; positionally otherwise
+	byName := map[string]*ssa.Phi{}
+	{
+		cnt := map[string]int{}
+		for _, p := range phis {
+			cnt[p.Comment]++
+		}
+		all := true
+		nvars := 0
+		for i := 0; i < want && i < len(spec.Vars); i++ {
+			name := spec.Vars[i]
+			if strings.HasPrefix(name, "cell:") {
+				continue
+			}
+			nvars++
+			if cnt[name] != 1 {
+				all = false
+			}
+		}
+		if all && nvars == len(phis) {
+			for _, p := range phis {
+				byName[p.Comment] = p
+			}
+		}
+	}
 	for i := 0; i < want; i++ {
 		pv := sig.Params().At(nparams + i)
 		name := ""
 		if i < len(spec.Vars) {
 			name = spec.Vars[i]
+		}
+		if p, ok := byName[name]; ok && types.Identical(p.Type(), pv.Type()) {
+			vi++
+			if next != nil {
+				args = append(args, next[p])
+			} else {
+				args = append(args, f.vals[p])
+			}
+			continue
 		}
 		if strings.HasPrefix(name, "cell:") {
 			// bound by source name to an Alloc of the function
